@@ -329,13 +329,59 @@ def r3_bb(ctx, repo):
     ctx.check(okm, "R3", "doe.build_box_behnken", where(doe, bb), "codes -1/0/+1 shifted to indices 0/1/2 of the sorted list [lo, mid, hi]" if okm else "code-to-level mapping changed", key="codes")
 
 
+def r4_gsd_partial(ctx, repo):
+    """generalized subset design: only the two structural ingredients that are visible in the code are decided"""
+    doe = repo.module("doe")
+    mp = doe.functions.get("_make_partitions")
+    if mp is None:
+        raise AnalysisError("_make_partitions not found")
+    C = "doe._make_partitions"
+    fl, P = func_params(mp)[:2]
+    loops = [s for s in stmts_of(mp) if isinstance(s, ast.For)]
+    ok = False
+    detail = "loop nest not recognised"
+    if len(loops) == 3:
+        lp, lf, ll = loops
+        rp, rl = range_bounds(lp.iter), range_bounds(ll.iter)
+        pi, li = lp.target.id, ll.target.id
+        nl = lf.target.id if isinstance(lf.target, ast.Name) else None
+        idx = [s for s in ll.body if isinstance(s, ast.Assign) and isinstance(s.targets[0], ast.Name)]
+        guard = [s for s in ll.body if isinstance(s, ast.If)]
+        if rp and rl and idx and guard and nl and access_path(lf.iter) == fl:
+            okp = rp[0] is not None and text(rp[0]) == "1" and poly.equal(rp[1], poly.parse("%s + 1" % P))
+            okl = rl[0] is not None and text(rl[0]) == "1" and access_path(rl[1]) == nl
+            oki = poly.equal(idx[0].value, poly.parse("%s + (%s - 1) * %s" % (pi, li, P)))
+            t = guard[0].test
+            okg = isinstance(t, ast.Compare) and access_path(t.left) == access_path(idx[0].targets[0]) and isinstance(t.ops[0], ast.LtE) and access_path(t.comparators[0]) == nl
+            oka = any(method_call(c) and method_call(c)[1] == "append" and access_path(c.args[0]) == access_path(idx[0].targets[0]) for c in calls_in(guard[0]))
+            ok = bool(okp and okl and oki and okg and oka)
+            detail = "level index = partition + (k-1)*reduction <= number of levels: residue classes mod `reduction`, disjoint and covering 1..L (for L >= 2)" if ok else \
+                "the partition of a factor's levels is not the residue-class partition index = p + (k-1)*reduction <= L (p-range ok=%s, k-range ok=%s, index ok=%s, guard ok=%s)" % (bool(okp), bool(okl), bool(oki), bool(okg))
+    ctx.check(ok, "R4", C, where(doe, mp), detail, key="partitions")
+    ls = doe.functions.get("_make_latin_square")
+    t = text(ls) if ls else ""
+    okls = "np.arange(n)" in t and "np.roll(numbers, -i) for i in range(n)" in t
+    ctx.check(okls, "R4", "doe._make_latin_square", where(doe, ls or mp), "cyclic latin square: row i is the base row rolled by i" if okls else "the latin square is not the cyclic one (rows rolled by 0..n-1)", key="latin-square")
+    mpd = doe.functions.get("_map_partitions_to_design")
+    t = text(mpd) if mpd else ""
+    tt = t.replace("(", "").replace(")", "").replace(" ", "")
+    okm = "itertools.product*partition_sets" in tt and "partitions[p][factor]forfactor,pinenumeraterow" in tt and "np.vstackmappings" in tt
+    ctx.check(okm, "R4", "doe._map_partitions_to_design", where(doe, mpd or mp), "each orthogonal-array row contributes the full product of its factors' partition sets" if okm else "row-to-design mapping changed", key="row-products")
+    g = repo.cls("GSDGenerator", "operators")
+    fn = g.methods.get("generate")
+    t = text(fn)
+    okg = "build_gsd(levels, self.reduction, self.n)" in t and "self.values[i][vector[i]]" in t and "levels.append(len(value))" in t
+    ctx.check(okg, "R4", "GSDGenerator.generate", where(g.module, fn), "codes index the supplied level lists factor by factor" if okg else "code-to-level mapping changed", key="codes")
+
+
 def run(ctx):
-    for rid, doc in (("R1", "full factorial = mixed-radix enumeration"), ("R2", "Plackett-Burman: Hadamard seeds, Sylvester doubling, size and column slice, codes"),
+    for rid, doc in (("R4", "generalized subset design (partial): residue-class partitions, cyclic latin square, row products, code mapping"), ("R1", "full factorial = mixed-radix enumeration"), ("R2", "Plackett-Burman: Hadamard seeds, Sylvester doubling, size and column slice, codes"),
                      ("R3", "Box-Behnken: pair blocks, centre, codes")):
         ctx.rule(rid, doc)
     ctx.axiom("Hadamard matrix => balanced, mutually orthogonal columns after dropping the all-ones column; Sylvester doubling preserves Hadamard; mixed-radix enumeration is a bijection onto the product")
-    ctx.assume("the generalized subset design (build_gsd and helpers) is NOT decided: its array manipulations have no stable shape for a structural rule")
+    ctx.assume("generalized subset design: only its structural ingredients are decided (R4); that the r complementary designs are pairwise disjoint and together make up the full factorial depends on the orthogonal-array augmentation, which is NOT decided")
     ctx.assume("the frexp-based choice between the 1/12/20-run seeds and the number of doublings is not decided")
     r1_fullfact(ctx, ctx.repo)
     r2_pb(ctx, ctx.repo)
     r3_bb(ctx, ctx.repo)
+    r4_gsd_partial(ctx, ctx.repo)
